@@ -760,9 +760,17 @@ func factsHandshake() {
 	if fn == nil {
 		unrec(g, "wsReplyNonceLen", "WebSocket.makeResponder not found")
 	} else {
-		if a := assignRHS(fn, `^nonce$`); a != nil && regexp.MustCompile(`^make\(\[\]byte, \d+\)$`).MatchString(show(a)) {
-			v, _ := ps.evalConst(a.(*ast.CallExpr).Args[1], 0)
-			natFact(g, "wsReplyNonceLen", int(v), show(a))
+		nonceLen := int64(-1)
+		if a := assignRHS(fn, `^nonce$`); a != nil {
+			// make([]byte, N) with N a literal or a named constant
+			if c, ok := a.(*ast.CallExpr); ok && show(c.Fun) == "make" && len(c.Args) == 2 && show(c.Args[0]) == "[]byte" {
+				if v, err := ps.evalConst(c.Args[1], 0); err == nil {
+					nonceLen = v
+				}
+			}
+		}
+		if nonceLen >= 0 {
+			natFact(g, "wsReplyNonceLen", int(nonceLen), "nonce := make([]byte, N) in WebSocket.makeResponder")
 		} else {
 			unrec(g, "wsReplyNonceLen", "nonce := make([]byte, N) not found")
 		}
